@@ -508,9 +508,9 @@ RULE = (
 def build(tier):
     return CheckSpec(
         [
-            Sub("scenarios", run_case, strategy=_case, budget={"quick": 6000, "thorough": 60000}, max_wall={"quick": 55, "thorough": 2400}),
-            Sub("early_end", run_case, strategy=_early_end_case, budget={"quick": 600, "thorough": 6000}, max_wall={"quick": 40, "thorough": 600}),
-            Sub("slow_render", run_case, strategy=_slow_case, budget={"quick": 1500, "thorough": 20000}, max_wall={"quick": 40, "thorough": 1200}),
+            Sub("scenarios", run_case, strategy=_case, budget={"quick": 6000, "thorough": 300000}, max_wall={"quick": 55, "thorough": 3600}),
+            Sub("early_end", run_case, strategy=_early_end_case, budget={"quick": 600, "thorough": 30000}, max_wall={"quick": 40, "thorough": 3600}),
+            Sub("slow_render", run_case, strategy=_slow_case, budget={"quick": 1500, "thorough": 100000}, max_wall={"quick": 40, "thorough": 3600}),
         ],
         RULE,
         assumptions=[
